@@ -91,6 +91,8 @@ type world struct {
 	holdMu    sync.Mutex
 	over      bool
 	okRounds  int
+	fillCh    chan struct{}
+	noReader  bool
 	d4        map[string]bool
 	cmdIndex  int
 	accepts   int // server-side PostAccept runs
@@ -100,6 +102,8 @@ type world struct {
 }
 
 var curWorld atomic.Value // *world
+const poolSize = 48
+
 var portSeq int
 var traceOn = os.Getenv("C13_TRACE") != ""
 
@@ -133,6 +137,8 @@ func installGlobals() {
 			w.statusObs(s, to)
 		}
 	})
+	// a bounded goroutine pool, so that a case can saturate it at the moment a redial completes
+	erpc.SetGopool(poolSize, 200*time.Millisecond)
 	erpc.SetLoggerOutputter(logOut{})
 	erpc.SetLoggerLevel("DEBUG")
 }
@@ -232,6 +238,41 @@ func (w *world) releaseHeld() {
 	close(w.holdCh)
 	w.holdCh = make(chan struct{})
 	w.holdMu.Unlock()
+}
+
+// ---- goroutine pool saturation ----
+
+// fill occupies every free slot of the library's goroutine pool until unfill.
+func (w *world) fill() {
+	w.fillCh = make(chan struct{})
+	ch := w.fillCh
+	for i := 0; i < 4*poolSize && erpc.Go(func() { <-ch }); i++ {
+	}
+}
+
+func (w *world) unfill() {
+	if w.fillCh != nil {
+		close(w.fillCh)
+		w.fillCh = nil
+	}
+}
+
+// waitSaturated returns when the released actor has got as far as it can with the pool full:
+// it waits for a slot to start the new read loop (HEAD), or everything is quiet again.
+func (w *world) waitSaturated() {
+	end := time.Now().Add(3 * time.Second)
+	for time.Now().Before(end) {
+		_, quiet := w.positions()
+		if quiet {
+			return
+		}
+		for _, gi := range dumpGoroutines() {
+			if strings.Contains(gi.text, "(*GoPool).MustGo") && strings.Contains(gi.text, "(*peer).Dial.func") {
+				return
+			}
+		}
+		time.Sleep(200 * time.Microsecond)
+	}
 }
 
 // ---- listener (server availability) ----
@@ -629,6 +670,11 @@ func (w *world) settle(afterCut bool, prev map[string]string) map[string]string 
 		last = key
 		if time.Now().After(deadline) {
 			w.hung = true
+			w.mu.Lock()
+			if !w.inRound && w.nread < 1+w.okRounds {
+				w.noReader = true
+			}
+			w.mu.Unlock()
 			return pos
 		}
 		time.Sleep(pause)
@@ -679,6 +725,7 @@ func newWorld(budget int32, uid bool, park []string, plan []byte, pdef byte) *wo
 }
 
 func (w *world) teardown() {
+	w.unfill()
 	w.mu.Lock()
 	w.over = true
 	w.plan = nil
